@@ -176,6 +176,22 @@ class SObj:
         return f"<SObj {self.cls.__name__}#{self.label or self.oid}>"
 
 
+class LazyValue:
+    """a field value that is decided (possibly by forking) when the code under contract first reads it; contracts
+    must not read it (forking inside a pure clause is rejected), they talk about it through ghost symbols"""
+
+    _UNSET = object()
+
+    def __init__(self, make):
+        self.make = make
+        self.value = LazyValue._UNSET
+
+    def force(self, it):
+        if self.value is LazyValue._UNSET:
+            self.value = self.make(it)
+        return self.value
+
+
 class SymRecDict:
     """dict with concrete (literal) keys that are looked up lazily: each key k has a presence
     flag and a value.  Models `dict(<arbitrary list of pairs>)`: an arbitrary finite map."""
